@@ -194,19 +194,25 @@ def run(rep, pdb, tier):
     if fn is None:
         rep.missing(key, rule, "function not found")
     else:
-        ctx = Ctx.for_fn(pdb, fn)
-        t = ctx.term(strip(fn["body"]))
-        ok = t[0] == "call" and str(t[1]).endswith("sqrt") and len(t) == 3 and t[2][0] == "call" and str(t[2][1]).endswith("::abs_sqr") and t[2][2] == P(0)
-        rep.add(key, rule, ok, fn["body"], "", where=loc(fn["body"]))
+        try:
+            t = SymExec(pdb, fn).run()
+            ok = t is not None and t[0] == "fn" and t[1] == "sqrt" and len(t) == 3 and t[2][0] == "ccall" and str(t[2][1]).endswith("::abs_sqr") and t[2][2] == ("in", ("param", 0))
+            det = show_tree(t) if t is not None else ""
+        except NotStraight as ex:
+            ok, det = False, str(ex)
+        rep.add(key, rule, ok, fn["body"], det, where=loc(fn["body"]))
     fn = pdb.fn("complex::Complex<f64>::arg")
     key, rule = "abs-arg/arg", "arg = imag.atan2(real) (receiver imag, argument real)"
     if fn is None:
         rep.missing(key, rule, "function not found")
     else:
-        ctx = Ctx.for_fn(pdb, fn)
-        t = ctx.term(strip(fn["body"]))
-        ok = t[0] == "call" and str(t[1]).endswith("atan2") and t[2:] == (F(P(0), "imag"), F(P(0), "real"))
-        rep.add(key, rule, ok, fn["body"], "", where=loc(fn["body"]))
+        try:
+            t = SymExec(pdb, fn).run()
+            ok = t is not None and t[0] == "fn" and t[1] == "atan2" and t[2:] == (("in", ("field", ("param", 0), "imag")), ("in", ("field", ("param", 0), "real")))
+            det = show_tree(t) if t is not None else ""
+        except NotStraight as ex:
+            ok, det = False, str(ex)
+        rep.add(key, rule, ok, fn["body"], det, where=loc(fn["body"]))
     # ---- the element-type traits of src/traits.rs (every generic container compares magnitudes through Signed::abs and
     # starts sums / products from Zero::zero / One::one)
     rule = "Signed::abs for Complex<f64> is (|z|, 0) with |z| the modulus Complex::abs"
